@@ -120,6 +120,12 @@ def entry_points(d, indent, workdir, with_doctrans):
                         lambda fmt=fmt, lvl=lvl: cdd.docstring.emit.docstring(ir(doc=d), fmt, indent_level=lvl)))
         eps.append(("emit(param doc,{})".format(fmt),
                     lambda fmt=fmt: cdd.docstring.emit.docstring(ir(pdoc=d), fmt, indent_level=1)))
+        # the flags are part of the quantifier: the same emission asked NOT to state defaults (what doctrans always asks for) has to take
+        # default statements OUT of the prose, a different path through the text
+        eps.append(("emit(param doc,{},no default doc)".format(fmt),
+                    lambda fmt=fmt: cdd.docstring.emit.docstring(ir(pdoc=d), fmt, indent_level=1, emit_default_doc=False)))
+        eps.append(("emit(param doc,{},no types,no wrap)".format(fmt),
+                    lambda fmt=fmt: cdd.docstring.emit.docstring(ir(pdoc=d), fmt, indent_level=1, emit_types=False, word_wrap=False)))
         eps.append(("emit(original_doc_str,{})".format(fmt),
                     lambda fmt=fmt: cdd.docstring.emit.docstring(
                         ir(internal={"original_doc_str": d}), fmt, indent_level=1, emit_original_whitespace=True)))
